@@ -84,11 +84,17 @@ func vWalk(s *Skiplist, cmp CompareFn, tag string) (m vMeasure) {
 				// can link it there after the deleter's unlinking pass; searches remove it lazily): the property speaks
 				// about the nodes NOT marked deleted, so it is skipped here.
 				vAssert(l > 0, "no marked node remains linked at level 0 at quiescence")
+				// ... but only on a level that searches visit (they start at the list level): above it nothing would
+				// ever unlink the node, and with user-managed memory it is freed while still linked there
+				vAssert(l <= int(s.level), "no marked node stays linked on a level above the list level (no search would ever unlink it)")
 				vReach("marked-node-lingers-on-index-level")
 				cur = nx
 				continue
 			}
 			vAssert(cur.Level() >= l, "node linked above its height")
+			if l == 0 {
+				vAssert(cur.Level() <= int(s.level), "the list level covers the height of every linked node (searches start there)")
+			}
 			if n > 0 {
 				vAssert(compare(cmp, chain[n-1].Item(), cur.Item()) < 0, "level chain strictly ascending")
 			}
